@@ -130,7 +130,18 @@ impl KRange {
     /// Returns true if the provided number is within the range
     pub fn contains(&self, n: KNumber) -> bool {
         let n: i64 = if n < 0.0 { n.floor() } else { n.ceil() }.into();
-        self.as_bounded_range().contains(&n)
+        // The bounds are compared directly rather than via as_bounded_range,
+        // which can't represent an inclusive end at i64::MAX
+        let after_start = match self.start() {
+            Some(start) => n >= start,
+            None => true,
+        };
+        let before_end = match self.end() {
+            Some((end, true)) => n <= end,
+            Some((end, false)) => n < end,
+            None => true,
+        };
+        after_start && before_end
     }
 
     /// Returns the range translated into non-negative indices, suitable for container access
